@@ -1,25 +1,4 @@
-// ===== spec/batch_spec.rs : what the default batch verifier computes (grouping by point label, conjunction of per-point checks) =====
-// ======================= specification =======================
-// the grouping of the queries by point label, as built by iterating the query set: the point of a group is the point of the
-// first query seen with that point label; its labels are all polynomial labels queried under that point label
-pub open spec fn gmap(q: Seq<(String, (String, Pt))>, k: nat) -> Map<String, (Pt, Set<String>)> decreases k {
-    if k == 0 { Map::empty() } else {
-        let m = gmap(q, (k - 1) as nat); let e = q[k - 1];
-        if m.dom().contains(e.1.0) { m.insert(e.1.0, (m[e.1.0].0, m[e.1.0].1.insert(e.0))) } else { m.insert(e.1.0, (e.1.1, Set::<String>::empty().insert(e.0))) }
-    }
-}
-// commitments by label: the last one wins (BTreeMap::from_iter)
-pub open spec fn c_is_last(cs: Seq<&LabeledCommitment<Comm>>, i: int) -> bool { 0 <= i < cs.len() && forall|j: int| i < j < cs.len() ==> (#[trigger] cs[j]).label != cs[i].label }
-pub open spec fn cmap_ok(m: Map<&String, &LabeledCommitment<Comm>>, cs: Seq<&LabeledCommitment<Comm>>) -> bool {
-    (forall|k: &String| m.dom().contains(k) == (exists|i: int| 0 <= i < cs.len() && (#[trigger] cs[i]).label == *k))
-    && (forall|i: int| #[trigger] c_is_last(cs, i) ==> m[&cs[i].label] == cs[i])
-}
-// the per-group inputs of `check`: commitments and claimed values of the group's labels, in label order
-pub open spec fn gather_ok(m: Map<&String, &LabeledCommitment<Comm>>, ev: Map<(String, Pt), Fr>, pt: Pt, ls: Seq<String>, k: nat) -> bool {
-    forall|i: int| 0 <= i < k ==> m.dom().contains(&#[trigger] ls[i]) && ev.dom().contains((ls[i], pt))
-}
-pub open spec fn gather_c<'a>(m: Map<&'a String, &'a LabeledCommitment<Comm>>, ls: Seq<String>) -> Seq<&'a LabeledCommitment<Comm>> { Seq::new(ls.len(), |i: int| m[&ls[i]]) }
-pub open spec fn gather_v(ev: Map<(String, Pt), Fr>, pt: Pt, ls: Seq<String>) -> Seq<Fr> { Seq::new(ls.len(), |i: int| ev[(ls[i], pt)]) }
+// ===== spec/batch_spec.rs : what the default batch verifier computes: conjunction of per-point checks over the groups =====
 // outcome of the batch after the first k groups (in point-label order): None = error, Some((all accepted so far, sponge state))
 pub open spec fn brun(vk: &VK, m: Map<&String, &LabeledCommitment<Comm>>, ev: Map<(String, Pt), Fr>, gs: Seq<(String, (Pt, Set<String>))>, proofs: Seq<Proof>, s0: SS, k: nat) -> Option<(bool, SS)> decreases k {
     if k == 0 { Some((true, s0)) } else {
@@ -38,73 +17,14 @@ pub open spec fn brun(vk: &VK, m: Map<&String, &LabeledCommitment<Comm>>, ev: Ma
         }
     }
 }
-// the sorted group list of a query set: one entry per point label, in label order
-pub open spec fn groups_of(qs: Set<(String, (String, Pt))>, gs: Seq<(String, (Pt, Set<String>))>) -> bool {
-    let g = gmap(set_seq(qs), set_seq(qs).len());
-    (forall|i: int, j: int| 0 <= i < j < gs.len() ==> (#[trigger] gs[i]).0 != (#[trigger] gs[j]).0)     // each point label once
-    && (forall|i: int| 0 <= i < gs.len() ==> g.dom().contains((#[trigger] gs[i]).0) && gs[i].1 == g[gs[i].0])
-    && (forall|k: String| g.dom().contains(k) ==> exists|i: int| 0 <= i < gs.len() && (#[trigger] gs[i]).0 == k)
-    && (forall|i: int, j: int| 0 <= i < j < gs.len() ==> key_lt((#[trigger] gs[i]).0, (#[trigger] gs[j]).0))
-}
-
 pub open spec fn batch_post(vk: &VK, cs: Seq<&LabeledCommitment<Comm>>, qs: Set<(String, (String, Pt))>, ev: Map<(String, Pt), Fr>, pv: Seq<Proof>, s0: SS, res: Result<bool, Error>, s1: SS) -> bool {
     exists|gs: Seq<(String, (Pt, Set<String>))>, m: Map<&String, &LabeledCommitment<Comm>>| #![trigger groups_of(qs, gs), cmap_ok(m, cs)]
         groups_of(qs, gs) && cmap_ok(m, cs) && gs.len() == pv.len()     // (a different number of proofs aborts)
         && (res is Err) == (brun(vk, m, ev, gs, pv, s0, gs.len()) is None)
         && (res is Ok ==> res->Ok_0 == brun(vk, m, ev, gs, pv, s0, gs.len())->Some_0.0 && s1 == brun(vk, m, ev, gs, pv, s0, gs.len())->Some_0.1)
 }
-pub open spec fn qmap_abs(m: Map<&String, (&Pt, BTreeSet<&String>)>, g: Map<String, (Pt, Set<String>)>) -> bool {
-    (forall|k: &String| m.dom().contains(k) == g.dom().contains(*k))
-    && (forall|k: &String| m.dom().contains(k) ==> *(#[trigger] m[k]).0 == g[*k].0 && set_vals(m[k].1@) == g[*k].1)
-}
-pub proof fn lemma_set_vals_insert(s: Set<&String>, r: &String)
-    ensures set_vals(s.insert(r)) == set_vals(s).insert(*r), set_vals(Set::<&String>::empty()) == Set::<String>::empty()
-{
-    assert forall|x: String| set_vals(s.insert(r)).contains(x) == set_vals(s).insert(*r).contains(x) by {
-        if set_vals(s.insert(r)).contains(x) { let w = choose|w: &String| s.insert(r).contains(w) && *w == x; if w != r { assert(s.contains(w)); } }
-        if set_vals(s).insert(*r).contains(x) { if x == *r { assert(s.insert(r).contains(r)); } else { let w = choose|w: &String| s.contains(w) && *w == x; assert(s.insert(r).contains(w)); } }
-    }
-    assert(set_vals(s.insert(r)) =~= set_vals(s).insert(*r));
-    assert(set_vals(Set::<&String>::empty()) =~= Set::<String>::empty());
-}
-// one query processed: the exec map follows gmap
-pub proof fn lemma_gmap_step(m0: Map<&String, (&Pt, BTreeSet<&String>)>, m1: Map<&String, (&Pt, BTreeSet<&String>)>, q: Seq<(String, (String, Pt))>, k: nat, pl: &String, pt: &Pt, l: &String)
-    requires
-        k < q.len(), q[k as int] == (*l, (*pl, *pt)), qmap_abs(m0, gmap(q, k)),
-        m1.dom() == m0.dom().insert(pl),
-        m0.dom().contains(pl) ==> m1[pl].0 == m0[pl].0 && m1[pl].1@ == m0[pl].1@.insert(l),
-        !m0.dom().contains(pl) ==> m1[pl].0 == pt && m1[pl].1@ == Set::<&String>::empty().insert(l),
-        forall|k2: &String| k2 != pl && m0.dom().contains(k2) ==> m1[k2] == m0[k2],
-    ensures qmap_abs(m1, gmap(q, k + 1))
-{
-    let g0 = gmap(q, k); let g1 = gmap(q, k + 1);
-    assert(gmap(q, (k + 1) as nat) == if g0.dom().contains(*pl) { g0.insert(*pl, (g0[*pl].0, g0[*pl].1.insert(*l))) } else { g0.insert(*pl, (*pt, Set::<String>::empty().insert(*l))) });
-    if m0.dom().contains(pl) { lemma_set_vals_insert(m0[pl].1@, l); } else { lemma_set_vals_insert(Set::<&String>::empty(), l); }
-    assert forall|k2: &String| m1.dom().contains(k2) == g1.dom().contains(*k2) by { }
-    assert forall|k2: &String| m1.dom().contains(k2) implies *(#[trigger] m1[k2]).0 == g1[*k2].0 && set_vals(m1[k2].1@) == g1[*k2].1 by {
-        if k2 != pl { assert(m0.dom().contains(k2)); }
-    }
-}
 pub proof fn lemma_brun_none(vk: &VK, m: Map<&String, &LabeledCommitment<Comm>>, ev: Map<(String, Pt), Fr>, gs: Seq<(String, (Pt, Set<String>))>, proofs: Seq<Proof>, s0: SS, k: nat, n: nat)
     requires k <= n, brun(vk, m, ev, gs, proofs, s0, k) is None
     ensures brun(vk, m, ev, gs, proofs, s0, n) is None
     decreases n
 { if k < n { lemma_brun_none(vk, m, ev, gs, proofs, s0, k, (n - 1) as nat); } }
-pub proof fn lemma_groups(qs: Set<(String, (String, Pt))>, m: Map<&String, (&Pt, BTreeSet<&String>)>, gv: Seq<(&String, (&Pt, BTreeSet<&String>))>, gs: Seq<(String, (Pt, Set<String>))>)
-    requires
-        qmap_abs(m, gmap(set_seq(qs), set_seq(qs).len())),
-        gv.len() == m.dom().len(), m.dom().finite(),
-        forall|i: int| 0 <= i < gv.len() ==> m.dom().contains((#[trigger] gv[i]).0) && gv[i].1 == m[gv[i].0],
-        forall|k: &String| m.dom().contains(k) ==> exists|i: int| 0 <= i < gv.len() && (#[trigger] gv[i]).0 == k,
-        forall|i: int, j: int| 0 <= i < j < gv.len() ==> key_lt(*(#[trigger] gv[i]).0, *(#[trigger] gv[j]).0) && gv[i].0 != gv[j].0,
-        gs == Seq::new(gv.len(), |i: int| (*gv[i].0, (*gv[i].1.0, set_vals(gv[i].1.1@)))),
-    ensures groups_of(qs, gs)
-{
-    let g = gmap(set_seq(qs), set_seq(qs).len());
-    assert forall|i: int, j: int| 0 <= i < j < gs.len() implies (#[trigger] gs[i]).0 != (#[trigger] gs[j]).0 by { assert(gv[i].0 != gv[j].0); }
-    assert forall|k: String| g.dom().contains(k) implies exists|i: int| 0 <= i < gs.len() && (#[trigger] gs[i]).0 == k by {
-        assert(m.dom().contains(&k));
-        let i = choose|i: int| 0 <= i < gv.len() && (#[trigger] gv[i]).0 == &k; assert(gs[i].0 == k);
-    }
-    assert forall|i: int, j: int| 0 <= i < j < gs.len() implies key_lt((#[trigger] gs[i]).0, (#[trigger] gs[j]).0) by { assert(key_lt(*gv[i].0, *gv[j].0)); }
-}
